@@ -335,3 +335,21 @@ def run (ctx):
   ctx.include('C09', ['Connection.read'], "packet-ins reach the learning switch through the connection's read loop and handler table")
   ctx.include('C13', ['_rx_flow_mod', 'ofp_flow_mod.show', 'ofp_match.show'], "the controller's flow-mods are carried out by the switch's flow-mod handler")
   ctx.include('C18', ['_process_actions_for_packet_from_buffer', '_buffer_packet'], "buffered packets are released through the switch's use-and-free routine")
+  # every switch that comes up is served over the connection it came up on: the learning switch sends through `self.connection`, so
+  # an object kept from an earlier connection of the same datapath and merely re-subscribed keeps answering into the dead connection
+  n_up = 0
+  sends_via_self = any(isinstance(c_.func, ast.Attribute) and c_.func.attr == 'send' and norm(c_.func.value) == 'self.connection' for f_ in ls.methods.values() for c_ in calls_in(f_.node, nested=True))
+  for c_ in mod.classes.values():
+    for f_ in c_.methods.values():
+      if 'ConnectionUp' not in f_.name or len(f_.params) < 2: continue
+      n_up += 1; ctx.analysed(f_)
+      evn = f_.params[1]
+      for cl_ in calls_in(f_.node):
+        if not (call_name(cl_) in ('addListeners', 'addListener', 'listenTo') and isinstance(cl_.func, ast.Attribute) and norm(cl_.func.value) == evn + '.connection' and cl_.args and isinstance(cl_.args[0], ast.Name)): continue
+        obj = cl_.args[0].id
+        rebound = any(isinstance(t_, ast.Attribute) and t_.attr == 'connection' and norm(t_.value) == obj and v_ is not None and norm(v_) == evn + '.connection' for t_, v_, st_, k_ in q.stores_in(f_.node))
+        good = rebound or not sends_via_self
+        ctx.ob('R-AGREE', f_, "a learning switch re-attached to a new connection also sends over it (`%s`)" % norm(cl_), good, "`.connection` re-bound" if good else
+               "`%s` is subscribed to the new connection's events but its `.connection` still refers to the connection it was created with: after the datapath reconnects every flow-mod and packet-out goes into the closed "
+               "connection - nothing is forwarded or flooded and every buffered packet-in stays allocated" % obj, (mod, cl_), 'D1')
+  ctx.floor('connection-up handlers of the learning component', n_up, 1)
